@@ -631,3 +631,136 @@ func runE8(p *an.Prog, r *an.Result) {
 	}
 	r.Floor("errors produced in loops", 5)
 }
+
+// ---------------------------------------------------------------------------
+// E10
+
+func init() {
+	register("E10", "a function that is handed a writer renders into it: the writer it passes to whatever renders nodes (node render methods, RenderSequence, renderer closures, other module functions taking a writer) is the one it received, or a wrapper built around that one - never a buffer of its own whose content is copied afterwards", runE10)
+}
+
+func runE10(p *an.Prog, r *an.Result) {
+	roles := GetRoles(p)
+	for _, fn := range p.Funcs {
+		if fn.Blocks == nil || isMainPkg(fn) || fn.Pkg == nil {
+			continue
+		}
+		// the writers this function (or the function it is a closure of) was handed
+		var given []ssa.Value
+		for f := fn; f != nil; f = f.Parent() {
+			for _, par := range f.Params {
+				if isWriterType(par.Type()) {
+					given = append(given, par)
+				}
+			}
+		}
+		if len(given) == 0 {
+			continue
+		}
+		name := roles.Label(fn)
+		fromGiven := func(v ssa.Value) bool {
+			ok := false
+			seen := map[ssa.Value]bool{}
+			var visit func(v ssa.Value, depth int)
+			visit = func(v ssa.Value, depth int) {
+				if v == nil || seen[v] || depth > 8 || ok {
+					return
+				}
+				seen[v] = true
+				for _, o := range an.Origins(v, an.StepValue) {
+					for _, g := range given {
+						if o == g {
+							ok = true
+							return
+						}
+					}
+					switch x := o.(type) {
+					case *ssa.FreeVar:
+						// a captured variable of the enclosing function: the cell, then what is stored in it
+						if pf := x.Parent().Parent(); pf != nil {
+							an.EachInstr(pf, func(in ssa.Instruction) {
+								if mc, isMC := in.(*ssa.MakeClosure); isMC && mc.Fn == ssa.Value(x.Parent()) {
+									for i, fv := range x.Parent().FreeVars {
+										if fv == x && i < len(mc.Bindings) {
+											visit(mc.Bindings[i], depth+1)
+											for _, sv := range an.Stores(mc.Bindings[i]) {
+												visit(sv, depth+1)
+											}
+										}
+									}
+								}
+							})
+						}
+					case *ssa.Alloc:
+						// a wrapper built around the writer: a struct one of whose fields holds it
+						for _, sv := range an.Stores(x) {
+							visit(sv, depth+1)
+						}
+						if x.Referrers() != nil {
+							for _, u := range *x.Referrers() {
+								if fa, isFA := u.(*ssa.FieldAddr); isFA {
+									for _, sv := range an.Stores(fa) {
+										visit(sv, depth+1)
+									}
+								}
+							}
+						}
+					case *ssa.MakeInterface:
+						visit(x.X, depth+1)
+					case *ssa.UnOp:
+						visit(x.X, depth+1)
+					case *ssa.Call:
+						// a library wrapper constructed from the writer (bufio.NewWriter(w), io.MultiWriter(w, ...))
+						for _, a := range x.Call.Args {
+							if isWriterType(a.Type()) || an.IsInterface(a.Type()) {
+								visit(a, depth+1)
+							}
+						}
+					}
+				}
+			}
+			visit(v, 0)
+			return ok
+		}
+		an.EachInstr(fn, func(in ssa.Instruction) {
+			ci, ok := in.(ssa.CallInstruction)
+			if !ok {
+				return
+			}
+			c := ci.Common()
+			if _, isB := c.Value.(*ssa.Builtin); isB {
+				return
+			}
+			// only calls that render: module callees, interface methods of module interfaces, function values
+			if callee := c.StaticCallee(); callee != nil && !p.InModule(callee) {
+				return
+			}
+			if c.IsInvoke() {
+				if n := an.NamedOf(c.Value.Type()); n == nil || !an.IsModulePkg(n.Obj().Pkg()) {
+					return
+				}
+			}
+			sig := callSig(c)
+			if sig == nil {
+				return
+			}
+			args := c.Args
+			if !c.IsInvoke() && sig.Recv() != nil && len(args) > 0 {
+				args = args[1:] // the receiver of a statically dispatched method comes first
+			}
+			for i := 0; i < sig.Params().Len() && i < len(args); i++ {
+				if !isWriterType(sig.Params().At(i).Type()) {
+					continue
+				}
+				r.Counts["writers handed on"]++
+				construct := "writer passed to " + nonEmpty(an.CallName(c), "a renderer")
+				if fromGiven(args[i]) {
+					r.OK(name, construct, an.InstrPos(in), "the writer the function received (or a wrapper around it)")
+				} else {
+					r.Bad(name, construct, an.InstrPos(in), fmt.Sprintf("%s was handed a writer but renders into %s: output produced before an error, a break or a continue is lost or reordered, and nothing is written until the whole part has been rendered", an.FuncName(fn), describe(p, args[i])))
+				}
+			}
+		})
+	}
+	r.Floor("writers handed on", 10)
+}
